@@ -8,6 +8,7 @@ def dispatch (line : String) : String :=
   | "WH" :: toks => Drv.LaunchD.handleWhich toks
   | "SC" :: toks => Drv.ScreenD.handle toks
   | "AN" :: toks => Drv.AnsiD.handle toks
+  | "FM" :: toks => Drv.FormsD.handle toks
   | _ => "bad-op"
 
 partial def loop (h : IO.FS.Stream) (out : IO.FS.Stream) : IO Unit := do
